@@ -1138,6 +1138,37 @@ func (g *dgen) newResultType() *spec.UserType {
 			g.feat("views:same-type-two-views")
 		}
 	}
+	// an ARRAY of a result type: its elements are rendered with their default view, or with the view a view of
+	// the enclosing type names for the attribute (goa refuses a view set on the array attribute itself). The
+	// element type has no required attributes: goa's client-side transforms dereference required attributes that
+	// the rendered view left out (met while building this; an element type with required attributes panics on the
+	// unchanged tree and would bury everything else).
+	if g.chance("rt-array-of-rt", "views", 1, 2, 4) {
+		g.seq++
+		kid := &spec.UserType{Name: fmt.Sprintf("RT%dKid", g.seq), IsResult: true, Identifier: fmt.Sprintf("application/vnd.rt%dkid", g.seq)}
+		ko := &spec.Type{Kind: spec.Object}
+		for i, n := range []string{"kid_id", "kid_name", "kid_tags"}[:2+t.Draw("kid-nfields", 2)] {
+			kf := g.prim(LocBody)
+			if i == 2 {
+				kf = &spec.Attr{Type: &spec.Type{Kind: spec.Array, Elem: g.prim(LocBody)}}
+			}
+			kf.Name, kf.Required, kf.HasDef, kf.Default = n, false, false, nil
+			ko.Fields = append(ko.Fields, kf)
+		}
+		kid.Attr = &spec.Attr{Type: ko}
+		kn := make([]string, len(ko.Fields))
+		for i, kf := range ko.Fields {
+			kn[i] = kf.Name
+		}
+		kid.Views = []*spec.View{{Name: "default", Fields: kn}, {Name: "tiny", Fields: kn[:1]}}
+		if t.Draw("kid-default-partial", 2) == 0 {
+			kid.Views = []*spec.View{{Name: "default", Fields: kn[1:]}, {Name: "tiny", Fields: kn[:1]}, {Name: "full", Fields: kn}}
+		}
+		g.d.Types = append(g.d.Types, kid)
+		f := &spec.Attr{Name: "kids", Type: &spec.Type{Kind: spec.Array, Elem: &spec.Attr{Type: &spec.Type{Kind: spec.User, Name: kid.Name}}}}
+		o.Fields = append(o.Fields, &spec.Attr{Name: "spacer3", Type: &spec.Type{Kind: spec.Int}}, f)
+		g.feat("views:array-of-result-type")
+	}
 	// a nested result type that is a structural TWIN of the child's type (same attributes, another name,
 	// other views): what tells the two apart is their name only
 	if c := o.Field("child"); c != nil && g.chance("rt-twin", "views", 1, 2, 4) {
@@ -1187,10 +1218,10 @@ func (g *dgen) newResultType() *spec.UserType {
 	}
 	// per-view override of a nested attribute's view (wins over the view set on the attribute)
 	for _, f := range o.Fields {
-		if f.Type.Kind != spec.User || f.Name != "child" {
+		if f.Name != "child" && f.Name != "kids" {
 			continue
 		}
-		nu := g.d.UserType(f.Type.Name)
+		nu, _ := NestedRT(g.d, f)
 		if nu == nil || len(nu.Views) < 2 || !g.chance("rt-view-level-override", "views", 2, 3, 4) {
 			continue
 		}
